@@ -2,6 +2,7 @@
 (one match arm each), against the rule `leak` (contracts/scope.shim.rs): what an expression leaves in scope for the code after it.
 The recursive calls appear as stubs carrying that same contract (induction hypothesis for sub-expressions)."""
 import re
+from units.common import arm_guard
 from vlib.gen import Unit, Fn, Adt, Raw
 
 N = "crates/compiler/src/typer/name_resolution.rs"
@@ -89,6 +90,8 @@ UNIT = Unit(
              "resolve_pat's contract (it binds exactly the pattern's variables) is assumed",
              "HIR construction and id allocation are opaque (partial shim module `hir`); im::Vector is a shim (clone = copy, push_back appends)"],
     items=[
+        arm_guard("crates/compiler/src/typer/name_resolution.rs", "resolve_expr", 'NameResolution', r"match expr \{",
+                  ['ast::Expr::EPath', 'ast::Expr::EUnit', 'ast::Expr::EBool', 'ast::Expr::EInt', 'ast::Expr::EInt8', 'ast::Expr::EInt16', 'ast::Expr::EInt32', 'ast::Expr::EInt64', 'ast::Expr::EUInt8', 'ast::Expr::EUInt16', 'ast::Expr::EUInt32', 'ast::Expr::EUInt64', 'ast::Expr::EFloat', 'ast::Expr::EFloat32', 'ast::Expr::EFloat64', 'ast::Expr::EString', 'ast::Expr::EConstr', 'ast::Expr::EStructLiteral', 'ast::Expr::ETuple', 'ast::Expr::EArray', 'ast::Expr::EClosure', 'ast::Expr::ELet', 'ast::Expr::EMatch', 'ast::Expr::EIf', 'ast::Expr::EWhile', 'ast::Expr::EGo', 'ast::Expr::ECall', 'ast::Expr::EUnary', 'ast::Expr::EBinary', 'ast::Expr::EProj', 'ast::Expr::EField', 'ast::Expr::EBlock']),
         Raw(text="pub mod ast {\nuse vstd::prelude::*;\n"),
         Raw(path="contracts/ast.shim.rs"),
         Adt(file=A, kw="struct", name="AstIdent", rules=["attrs"]),
